@@ -61,7 +61,9 @@ DEVIATIONS = [("openfirst", "PartitionInv"), ("batchmix", "ColumnwiseInv"), ("ra
               # MappedGeometry.fun2par = imap . inner.fun2par (IMapAfterInnerFun2Par): mapped KL round trip; mapped step projection
               ("imapafter", "MappedRoundTripInv"), ("imapafter_proj", "MappedProjectionInv"),
               # a public setter that does not recompute / forget what was derived from the old value
-              ("stalestep", "SeqFresh"), ("stalefunvec", "SeqFresh"), ("stalewrap", "SeqFresh")]
+              ("stalestep", "SeqFresh"), ("stalefunvec", "SeqFresh"), ("stalewrap", "SeqFresh"),
+              # fun2par of a matrix of stacked functions reduces the node values of a step over ALL columns at once
+              ("batchreduce", "ColumnwiseF2PInv")]
 TOL = 1e-12
 KLTOL = 1e-10
 
@@ -91,11 +93,16 @@ def _iaffine(f):
 
 
 # entry-wise maps of MappedGeometry named by the specification: (map, inverse map)
-MAPS = {"affine": (_affine, _iaffine), "cube": (_cube, np.cbrt), "exp": (np.exp, np.log)}
+def _same(v):
+    return v
+
+
+# "wrap": the bare _WrappedGeometry (no map at all)
+MAPS = {"affine": (_affine, _iaffine), "cube": (_cube, np.cbrt), "exp": (np.exp, np.log), "wrap": (_same, _same)}
 
 
 # derivatives of the maps (only to bound the floating-point error of a round trip through the inverse maps)
-DMAPS = {"affine": lambda v: 2.0 + 0 * v, "cube": lambda v: 3 * v ** 2, "exp": np.exp}
+DMAPS = {"affine": lambda v: 2.0 + 0 * v, "cube": lambda v: 3 * v ** 2, "exp": np.exp, "wrap": lambda v: 1.0 + 0 * v}
 
 
 def apply_maps(ms, x):
@@ -115,10 +122,25 @@ def inner_cfg(c):
     return dict(c, maps=[])
 
 
+def _optkey(c):
+    """suffix naming the non-default constructor options of a configuration (nothing for the defaults: the keys of the
+    configurations that existed before the option dimension are unchanged)"""
+    out = ""
+    if c.get("d2", 4) != 4 or c.get("tau", 12) != 12:
+        out += "/decay2=%d/tau=%d" % (c["d2"], c["tau"])
+    if c.get("form"):
+        out += "/form=%s" % c["form"]
+    return out
+
+
 def ckey(c):
     ms = c.get("maps") or []
-    if ms:
-        return "mapped/inner=%s/map=%s" % (ckey(inner_cfg(c)), "+".join(ms))
+    if ms:      # the form of a mapped configuration is an option of the wrapper (MappedGeometry without imap)
+        return "mapped/inner=%s/map=%s" % (ckey(dict(c, maps=[], form="")), "+".join(ms)) + ("/form=%s" % c["form"] if c.get("form") else "")
+    return _ckey(c) + _optkey(c)
+
+
+def _ckey(c):
     k = c["kind"]
     if k == "ident":
         return "ident/%s/n=%d" % (c["cls"], c["n"])
@@ -133,7 +155,7 @@ def ckey(c):
 
 
 def is2d(c):
-    return c["kind"] == "image" and not c["cls"].startswith("Visual")
+    return c["kind"] == "image" and c["cls"] not in ("Visual_C", "Visual_F", "DefaultVisual")
 
 
 def sel_type(c):
@@ -142,9 +164,24 @@ def sel_type(c):
 
 # ---------------------------------------------------------------------------------------------------------------
 # realisation
-def _image(cls, r, cc):
+def _image(cls, r, cc, form=""):
     import cuqi
     G = cuqi.geometry
+    if form == "noorder":           # the order argument is omitted: documented default 'C'
+        if cls == "Image2D_C":
+            return G.Image2D((r, cc))
+        if cls == "Visual_C":
+            return G.Image2D((r, cc), visual_only=True)
+        raise KeyError((cls, form))
+    if cls == "Continuous2D" and form:
+        # grid given as two arrays of node coordinates / one array and one number of nodes
+        a, b = np.linspace(-1.0, 2.0, r), np.linspace(0.5, 1.0, cc)
+        return G.Continuous2D((a, b)) if form == "array" else G.Continuous2D((list(a), cc))
+    if form:
+        raise KeyError((cls, form))
+    if cls == "DefaultVisual":
+        from cuqi.geometry import _DefaultGeometry2D
+        return _DefaultGeometry2D((r, cc), visual_only=True)
     if cls == "Image2D_C":
         return G.Image2D((r, cc), order="C")
     if cls == "Image2D_F":
@@ -169,17 +206,38 @@ def step_grid(c):
 def make_geometry(c, proj=None):
     """the real geometry of a configuration; a non-empty `maps` wraps it in one MappedGeometry per map"""
     import cuqi
-    g = _make_inner(c, proj)
-    for mp in (c.get("maps") or []):
-        g = cuqi.geometry.MappedGeometry(g, map=MAPS[mp][0], imap=MAPS[mp][1])
+    from cuqi.geometry import _WrappedGeometry
+    ms = c.get("maps") or []
+    g = _make_inner(dict(c, form="") if ms else c, proj)
+    for mp in ms:
+        if mp == "wrap":
+            g = _WrappedGeometry(g)
+        elif c.get("form") == "noimap":
+            g = cuqi.geometry.MappedGeometry(g, map=MAPS[mp][0])
+        else:
+            g = cuqi.geometry.MappedGeometry(g, map=MAPS[mp][0], imap=MAPS[mp][1])
     return g
 
 
 def innermost(g):
-    import cuqi
-    while isinstance(g, cuqi.geometry.MappedGeometry):
+    from cuqi.geometry import _WrappedGeometry
+    while isinstance(g, _WrappedGeometry):
         g = g.geometry
     return g
+
+
+def _grid1d(n, form):
+    """the documented forms of a 1-D grid argument: number of nodes, tuple with one int, list / array of coordinates"""
+    if not form:
+        return n
+    if form == "tuple":
+        return (n,)
+    x = np.linspace(-0.5, 1.5, n) if n > 1 else np.array([0.25])
+    if form == "list":
+        return [float(v) for v in x]
+    if form == "array":
+        return x
+    raise KeyError(form)
 
 
 def _make_inner(c, proj=None):
@@ -189,19 +247,26 @@ def _make_inner(c, proj=None):
     k = c["kind"]
     with warnings.catch_warnings(), contextlib.redirect_stdout(io.StringIO()):
         warnings.simplefilter("ignore")
+        form = c.get("form") or ""
         if k == "ident":
             if c["cls"] == "Continuous1D":
-                return G.Continuous1D(c["n"])
+                return G.Continuous1D(_grid1d(c["n"], form))
             if c["cls"] == "Default1D":
                 from cuqi.geometry import _DefaultGeometry1D
-                return _DefaultGeometry1D(c["n"])
+                return _DefaultGeometry1D(_grid1d(c["n"], form))
             if c["cls"] == "Discrete":
-                return G.Discrete(c["n"])
+                if form == "names":
+                    return G.Discrete(["name%d" % i for i in range(c["n"])])
+                if not form:
+                    return G.Discrete(c["n"])
         if k == "image":
-            return _image(c["cls"], c["r"], c["cc"])
-        if k == "kl":
-            g = G.KLExpansion(np.linspace(0, 1, c["n"]), decay_rate=2, normalizer=12,
-                              num_modes=None if c["m"] == 0 else c["m"])
+            return _image(c["cls"], c["r"], c["cc"], form)
+        if k == "kl" and form in ("", "list"):
+            grid = np.linspace(0, 1, c["n"])
+            kw = {"normalizer": c.get("tau", 12), "num_modes": None if c["m"] == 0 else c["m"]}
+            if c.get("d2", 4) != 5:         # 5: the decay rate is the documented default 2.5 - the argument is omitted
+                kw["decay_rate"] = c.get("d2", 4) / 2 if c.get("d2", 4) % 2 else c.get("d2", 4) // 2
+            g = G.KLExpansion([float(v) for v in grid] if form == "list" else grid, **kw)
             if c["n2"] > 0:
                 # use the geometry once (fills whatever it caches), then replace the grid
                 d = g.par_dim
@@ -236,6 +301,7 @@ class Model:
         self.par_dim = case["par_shape"][0]
         self.fun_shape = tuple(case["fun_shape"])
         self.has_vec = case["has_vec"]
+        self.has_inv = case.get("has_inv", True)
         self.two = is2d(c)
         self.maps = list(c.get("maps") or [])
         if self.two:
@@ -245,6 +311,9 @@ class Model:
         if c["kind"] == "kl":
             self.N = self.fun_shape[0]
             self.B = kl_basis(self.N)
+            if case.get("halfpow"):
+                # half-integer decay rate: the specification's basis functions are the sine modes divided by sqrt(i+1)
+                self.B = self.B / np.sqrt(np.arange(1, self.N + 1))[None, :]
             self.coefs = np.array([float(fr(q)) for q in case["coefs"]])
 
     def p2f(self, p):
@@ -435,11 +504,110 @@ def step_projection(f, steps, s, proj):
 
 
 # ---------------------------------------------------------------------------------------------------------------
+# constructor options x facets: what was replayed (evidence: observation option_value_x_facet; guard: _vacuity_options)
+def opt_labels(c, pr=None):
+    """the constructor option values a configuration stands for, as 'Class.option=value'"""
+    ms = c.get("maps") or []
+    form = c.get("form") or ""
+    if ms:
+        if ms == ["wrap"]:
+            return ["_WrappedGeometry(geometry)"]
+        return ["MappedGeometry.map=%s" % "+".join(ms), "MappedGeometry.imap=%s" % ("None" if form == "noimap" else "given")]
+    k, cls = c["kind"], c["cls"]
+    if k == "step":
+        return ["StepExpansion.fun2par_projection=%s" % (pr or c["proj"] or "mean")]
+    if k == "kl":
+        n = c["n2"] if c["n2"] > 0 else c["n"]
+        return ["KLExpansion.decay_rate=%s" % ("omitted(2.5)" if c["d2"] == 5 else "%g" % (c["d2"] / 2)),
+                "KLExpansion.normalizer=%d" % c["tau"],
+                "KLExpansion.num_modes=%s" % ("None" if c["m"] == 0 else "<grid" if c["m"] < n else "=grid" if c["m"] == n else ">grid"),
+                "KLExpansion.grid=%s" % (form or "array")]
+    if k == "ident":
+        if cls == "Discrete":
+            return ["Discrete.variables=%s" % (form or "int")]
+        return ["%s.grid=%s" % ("Continuous1D" if cls == "Continuous1D" else "_DefaultGeometry1D", form or "int")]
+    if cls == "Continuous2D":
+        return ["Continuous2D.grid=%s" % (form or "ints")]
+    if cls in ("Default2D", "DefaultVisual"):
+        return ["_DefaultGeometry2D.visual_only=%s" % ("True" if cls == "DefaultVisual" else "omitted(False)")]
+    return ["Image2D.order=%s" % ("omitted(C)" if form == "noorder" else cls[-1]),
+            "Image2D.visual_only=%s" % ("True" if cls.startswith("Visual") else "omitted(False)")]
+
+
+class _Cov:
+    def __init__(self, ctx, c):
+        self.table = ctx.observations.setdefault("option_value_x_facet", {})
+        self.c = c
+        self._labels = {}
+
+    def __call__(self, facet, pr=None):
+        if pr not in self._labels:
+            self._labels[pr] = opt_labels(self.c, pr)
+        for lab in self._labels[pr]:
+            row = self.table.setdefault(lab, {})
+            row[facet] = row.get(facet, 0) + 1
+
+
+# facets every option value must have been replayed with (those of fun2par only where the geometry has an inverse and
+# the batch behaviour of its fun2par is asserted)
+FACETS_FORWARD = ["shapes", "par2fun/single"] + ["par2fun/batch/W=%d" % w for w in (1, 2, 3)] + ["samples/par-origin/Ns=%d" % w for w in (1, 2, 3)]
+FACETS_INVERSE = ["round_trip/single", "fun2par/single", "fun2par/single-columns-of-the-batch"] + ["samples/fun-origin/Ns=%d" % w for w in (1, 2, 3)]
+FACETS_BATCH_INV = ["round_trip/batch/W=%d" % w for w in (1, 2, 3)] + ["fun2par/batch/W=%d" % w for w in (1, 2, 3)]
+REQUIRED_OPTIONS = (
+    [("StepExpansion.fun2par_projection=%s" % o, "all") for o in ("mean", "max", "min", "MEAN", "Max", "MiN")]
+    + [("KLExpansion.decay_rate=%s" % o, "all") for o in ("1", "2", "omitted(2.5)", "3")]
+    + [("KLExpansion.normalizer=%d" % o, "all") for o in (1, 3, 12)]
+    + [("KLExpansion.num_modes=%s" % o, "all") for o in ("None", "<grid", "=grid", ">grid")]
+    + [("KLExpansion.grid=%s" % o, "all") for o in ("array", "list")]
+    + [("%s.grid=%s" % (g, o), "all") for g in ("Continuous1D", "_DefaultGeometry1D") for o in ("int", "tuple", "list", "array")]
+    + [("Continuous2D.grid=%s" % o, "all") for o in ("ints", "array", "mixed")]
+    + [("Discrete.variables=%s" % o, "inverse") for o in ("int", "names")]
+    + [("Image2D.order=%s" % o, "inverse") for o in ("C", "F", "omitted(C)")]
+    + [("Image2D.visual_only=%s" % o, "inverse") for o in ("True", "omitted(False)")]
+    + [("_DefaultGeometry2D.visual_only=%s" % o, "inverse") for o in ("True", "omitted(False)")]
+    + [("MappedGeometry.map=%s" % o, "inverse") for o in ("affine", "cube", "exp", "affine+cube", "cube+affine")]
+    + [("MappedGeometry.imap=given", "inverse"), ("MappedGeometry.imap=None", "forward"), ("_WrappedGeometry(geometry)", "inverse")])
+
+
+def _vacuity_options(ctx):
+    """every documented constructor option value was replayed with every facet (the table is part of the evidence)"""
+    from cuqiverif.core import MachineryError
+    table = ctx.observations.get("option_value_x_facet", {})
+    miss = []
+    for lab, level in REQUIRED_OPTIONS:
+        need = list(FACETS_FORWARD)
+        if level in ("inverse", "all"):
+            need += FACETS_INVERSE
+        if level == "all":
+            need += FACETS_BATCH_INV
+        miss += [(lab, f) for f in need if not table.get(lab, {}).get(f)]
+    if miss:
+        raise MachineryError("vacuous: constructor option value x facet not replayed: %r" % (miss[:6],))
+
+
+def _extrema_spread(case, W=3):
+    """do the extrema of the steps of this step configuration lie in different columns of the stacked functions `fb`?"""
+    st = np.array(case["stepof"], dtype=int)
+    FBm = np.stack([dec(case["fb"][w], 1) for w in range(W)], axis=-1)
+    out = []
+    for red in (np.max, np.min):
+        cols = []
+        for i in sorted(set(st.tolist())):
+            blk = FBm[st == i]
+            cols.append(frozenset(np.nonzero((blk == red(blk)).any(axis=0))[0].tolist()))
+        out.append(any(not (a & b) for a in cols for b in cols))
+    return all(out)
+
+
+# ---------------------------------------------------------------------------------------------------------------
 def check_maps(ctx, case):
     c = case["c"]
     key = ckey(c)
+    cov = _Cov(ctx, c)
+    # the projection the geometry is constructed with: the option of the configuration (any letter case), else 'mean'
+    cproj = c["proj"] or "mean"
     try:
-        G = make_geometry(c, "mean")
+        G = make_geometry(c, cproj if c["kind"] == "step" else None)
     except Exception as ex:     # noqa: BLE001
         from cuqiverif.core import MachineryError
         if isinstance(ex, MachineryError):
@@ -451,6 +619,7 @@ def check_maps(ctx, case):
     d = m.par_dim
     # --- shapes reported by the geometry
     ctx.case(("shapes", key), facet="shapes")
+    cov("shapes")
     rep = {"par_shape": tuple(G.par_shape), "fun_shape": tuple(G.fun_shape), "par_dim": G.par_dim, "fun_dim": G.fun_dim}
     exp = {"par_shape": (d,), "fun_shape": m.fun_shape, "par_dim": d, "fun_dim": int(np.prod(m.fun_shape))}
     if m.has_vec:
@@ -513,6 +682,7 @@ def check_maps(ctx, case):
                                                               ("ramp2", (np.arange(1, d + 1, dtype=float) + 2) ** 2 % 11 - 4)]
     for name, p in inputs:
         ctx.case(("p2f", key, name), facet="par2fun")
+        cov("par2fun/single")
         sig = "%s/par2fun/in=%s" % (key, name)
         try:
             f = _call(G.par2fun, p.copy())
@@ -525,12 +695,20 @@ def check_maps(ctx, case):
             continue
         f = np.asarray(f, dtype=float)
         sig = "%s/fun2par_par2fun/in=%s" % (key, name)
-        try:
-            back = _call(G.fun2par, f.copy())
-            compare(ctx, sig, case, "fun2par(par2fun(p)) is not p", p, back,
-                    m.rt_tol(max(tol, 1e-11) if c["kind"] == "kl" else tol, m.p2f_inner(p)))
-        except Exception as ex:     # noqa: BLE001
-            ctx.mismatch("raises/" + sig, case, "fun2par raised: %r" % (ex,))
+        if m.has_inv:
+            cov("round_trip/single")
+            try:
+                back = _call(G.fun2par, f.copy())
+                compare(ctx, sig, case, "fun2par(par2fun(p)) is not p", p, back,
+                        m.rt_tol(max(tol, 1e-11) if c["kind"] == "kl" else tol, m.p2f_inner(p)))
+            except Exception as ex:     # noqa: BLE001
+                ctx.mismatch("raises/" + sig, case, "fun2par raised: %r" % (ex,))
+        elif name == "ramp":
+            # MappedGeometry without imap: fun2par is not available; what it does instead is recorded
+            try:
+                ctx.observe("fun2par_without_imap/" + c["kind"], "returns " + type(_call(G.fun2par, f.copy())).__name__)
+            except Exception as ex:     # noqa: BLE001
+                ctx.observe("fun2par_without_imap/" + c["kind"], "raises " + type(ex).__name__)
         if m.has_vec:
             sig = "%s/fun2vec/in=%s" % (key, name)
             try:
@@ -540,11 +718,24 @@ def check_maps(ctx, case):
                     compare(ctx, "%s/vec2fun_fun2vec/in=%s" % (key, name), case, "vec2fun(fun2vec(f)) is not f", ef, f2, tol)
             except Exception as ex:     # noqa: BLE001
                 ctx.mismatch("raises/" + sig, case, "fun2vec / vec2fun raised: %r" % (ex,))
-    # --- fun2par of a function outside the range of par2fun: the documented projection; idempotence
-    projs = ["mean", "min", "max"] if c["kind"] == "step" else [None]
-    for pr in projs:
-        Gp = make_geometry(c, pr) if pr else G
-        nd = 2 if m.two else 1
+    # --- fun2par of functions outside the range of par2fun: the documented projection; idempotence.  A step
+    #     configuration without a projection option is checked with all three projections, else with its option.
+    nd = 2 if m.two else 1
+    projs = ([c["proj"]] if c["proj"] else ["mean", "min", "max"]) if c["kind"] == "step" else [None]
+    allproj = c["kind"] == "step" and not c["proj"]
+    geoms = {pr: (make_geometry(c, pr) if pr and pr != cproj else G) for pr in projs}
+    # the matrix of stacked functions: columns (mapped: pre-images) and the specification's fun2par of each column
+    fb_pre = [dec(case["fb"][w], nd) for w in range(len(WIDTHS))]
+    fb_cols = [apply_maps(m.maps, m.node(g)) for g in fb_pre]
+    fb_tol = max(m.rt_tol(max(tol, 1e-11) if c["kind"] == "kl" else tol, m.node(g)) for g in fb_pre)
+
+    def fb_expected(pr):
+        if steps_status == "shifted":       # boundary node in the neighbouring step: consistency with the code's own partition
+            return [step_projection(g, m.stepof, c["s"], pr.lower()) for g in fb_pre]
+        return [dec(q, 1) for q in case["fb2p_" + pr if allproj else "fb2p"]]
+
+    for pr in (projs if m.has_inv else []):
+        Gp = geoms[pr]
         g0 = dec(case["g0"], nd)               # a lattice function (KL: in mode coordinates); mapped: the pre-image of f0
         f0 = apply_maps(m.maps, m.node(g0))
         if m.maps and not case["tagged"] and not close(f0, dec(case["f0"], nd), TOL):
@@ -552,12 +743,13 @@ def check_maps(ctx, case):
             raise MachineryError("harness-side maps %r disagree with the specification's exact f0 for %s" % (m.maps, key))
         if c["kind"] == "step":
             if steps_status == "exact":
-                ep = dec(case["f2p_" + pr], 1)
+                ep = dec(case["f2p_" + pr if allproj else "f2p"], 1)
             else:                              # boundary node in the neighbouring step: consistency with the code's own partition
-                ep = step_projection(g0, m.stepof, c["s"], pr)
+                ep = step_projection(g0, m.stepof, c["s"], pr.lower())
         else:
             ep = dec(case["f2p"], 1)
         ctx.case(("f2p", key, pr), facet="fun2par")
+        cov("fun2par/single", pr)
         sig = "%s/fun2par/proj=%s" % (key, pr)
         try:
             p1 = _call(Gp.fun2par, f0.copy())
@@ -575,11 +767,25 @@ def check_maps(ctx, case):
                     g1, g2, max(tol, 1e-11) if not m.maps else max(1e-9, m.rt_tol(tol, m.node(g0))))
         except Exception as ex:     # noqa: BLE001
             ctx.mismatch("raises/%s/idempotent/proj=%s" % (key, pr), case, "second round trip raised: %r" % (ex,))
-    # --- batches of 1, 2 and 3 columns: column-wise action.  The specification supplies par2fun of every column (bcols)
-    #     and the shapes (bshape); a result for ONE column may come with or without its batch axis (observation)
+        # every column of the matrix of stacked functions on its own (single-vector fun2par)
+        exp_cols = fb_expected(pr)
+        for w, (f, e) in enumerate(zip(fb_cols, exp_cols)):
+            ctx.case(("f2p_col", key, pr, w), facet="fun2par")
+            cov("fun2par/single-columns-of-the-batch", pr)
+            sig = "%s/fun2par/in=fb%d/proj=%s" % (key, w, pr)
+            try:
+                compare(ctx, sig, case, "fun2par(f) is not the documented inverse / projection (column %d of the stacked functions)" % w,
+                        e, _call(Gp.fun2par, f.copy()), fb_tol)
+            except Exception as ex:     # noqa: BLE001
+                ctx.mismatch("raises/" + sig, case, "fun2par raised: %r" % (ex,))
+    # --- batches of 1, 2 and 3 columns: column-wise action.  The specification supplies par2fun of every column (bcols),
+    #     the stacked functions (fb) with fun2par of each column (fb2p) and the shapes (bshape); a result for ONE column
+    #     may come with or without its batch axis (observation).  fun2par on batches: for every projection option.
     okind = ("mapped/" if m.maps else "") + c["kind"] + "/" + c["cls"]
     spec_cols = conv_value(m, case["bcols"], False, False, not m.two)
     batches = {}
+    asserted = not m.maps and (c["kind"] in ("kl", "step") or (c["kind"] == "ident" and c["cls"] != "Discrete") or
+                               (c["kind"] == "image" and c["cls"] == "Continuous2D"))
     for W in WIDTHS:
         bs = case["bshape"][W - 1]
         P = np.array([[i + 1 + 10 * w for w in range(W)] for i in range(d)], dtype=float)
@@ -591,6 +797,7 @@ def check_maps(ctx, case):
             EF = spec_cols[..., :W].copy()
         batches[W] = (P, EF)
         ctx.case(("batch_p2f", key, W), facet="batch")
+        cov("par2fun/batch/W=%d" % W)
         sig = "%s/par2fun_batch/W=%d" % (key, W)
         try:
             FB = _call(G.par2fun, P.copy())
@@ -599,24 +806,33 @@ def check_maps(ctx, case):
         except Exception as ex:     # noqa: BLE001
             ctx.mismatch("raises/" + sig, case, "par2fun raised on a (par_dim, %d) matrix: %r" % (W, ex))
             ok = False
-        asserted = not m.maps and (c["kind"] in ("kl", "step") or (c["kind"] == "ident" and c["cls"] != "Discrete") or
-                                   (c["kind"] == "image" and c["cls"] == "Continuous2D"))
-        sig = "%s/fun2par_batch/W=%d" % (key, W)
-        try:
-            PB = _call(G.fun2par, EF.copy())
-            if asserted:
-                ctx.case(("batch_f2p", key, W), facet="batch")
-                PB = _batch_axis(ctx, "fun2par", okind, W, P, PB, bs["map_par"])
-                compare(ctx, sig, case, "fun2par of stacked functions is not column-wise fun2par", P, PB, max(tol, 1e-11))
-            else:
-                PB = _batch_axis(ctx, None, okind, W, P, PB, None)
-                same = np.shape(PB) == P.shape and close(PB, P, 1e-10)
-                _obs_batch(ctx, "fun2par_batch_columnwise", okind, W, bool(same))
-        except Exception as ex:     # noqa: BLE001
-            if asserted:
-                ctx.mismatch("raises/" + sig, case, "fun2par raised on stacked functions: %r" % (ex,))
-            else:
-                _obs_batch(ctx, "fun2par_batch_columnwise", okind, W, type(ex).__name__)
+        FBW = np.stack(fb_cols[:W], axis=-1)            # W stacked functions outside the range of par2fun
+        for pr in (projs if m.has_inv else []):
+            Gp = geoms[pr]
+            psfx = "/proj=%s" % pr if pr else ""
+            EPW = np.stack(fb_expected(pr)[:W], axis=-1)
+            for name, cname, arg, want, what, t in (
+                    ("fun2par_batch", "round_trip/batch", EF, P, "fun2par of stacked functions par2fun(P) is not the matrix P (column-wise fun2par)", max(tol, 1e-11)),
+                    ("fun2par_fbatch", "fun2par/batch", FBW, EPW, "fun2par of a matrix of stacked functions is not fun2par of each column "
+                     "(the documented inverse / projection, column by column)", fb_tol)):
+                sig = "%s/%s/W=%d%s" % (key, name, W, psfx)
+                try:
+                    PB = _call(Gp.fun2par, arg.copy())
+                    if asserted:
+                        ctx.case((name, key, W, pr), facet="batch")
+                        cov("%s/W=%d" % (cname, W), pr)
+                        PB = _batch_axis(ctx, "fun2par", okind, W, want, PB, bs["map_par"])
+                        compare(ctx, sig, case, what, want, PB, t)
+                    else:
+                        cov("%s(observed)/W=%d" % (cname, W), pr)
+                        PB = _batch_axis(ctx, None, okind, W, want, PB, None)
+                        same = np.shape(PB) == want.shape and close(PB, want, 1e-10)
+                        _obs_batch(ctx, name + "_columnwise", okind, W, bool(same))
+                except Exception as ex:     # noqa: BLE001
+                    if asserted:
+                        ctx.mismatch("raises/" + sig, case, "fun2par raised on stacked functions: %r" % (ex,))
+                    else:
+                        _obs_batch(ctx, name + "_columnwise", okind, W, type(ex).__name__)
         # the vector-form maps are documented for one function only: their action on stacks is recorded
         if m.has_vec:
             EV = np.stack([m.f2v(EF[..., w]) for w in range(W)], axis=-1)
@@ -627,16 +843,23 @@ def check_maps(ctx, case):
                     _obs_batch(ctx, name + "_batch_columnwise", okind, W, bool(same))
                 except Exception as ex:     # noqa: BLE001
                     _obs_batch(ctx, name + "_batch_columnwise", okind, W, type(ex).__name__)
-    check_sample_sets(ctx, case, G, m, tol, batches)
+    funsets = None
+    if m.has_inv:
+        funsets = {W: (np.stack(fb_cols[:W], axis=-1), np.stack(fb_expected(cproj if c["kind"] == "step" else None)[:W], axis=-1), fb_tol)
+                   for W in WIDTHS}
+    check_sample_sets(ctx, case, G, m, tol, batches, funsets, cov)
     if m.maps:
         check_mapped_objects(ctx, case, G, m, tol)
 
 
-def check_sample_sets(ctx, case, G, m, tol, batches):
+def check_sample_sets(ctx, case, G, m, tol, batches, funsets=None, cov=None):
     """Sample sets of Ns = 1, 2 and 3 parameter samples on EVERY configuration, through all three forms: the function
     values of a set of Ns samples are the per-sample par2fun stacked along the last axis, with Ns samples (also for
     Ns = 1); vector form and parameters likewise; round trips are lossless.  Shapes, Ns and the vector flag are those the
-    specification emitted for the width (bshape), the content its columns (bcols)."""
+    specification emitted for the width (bshape), the content its columns (bcols).
+    funsets[W] = (stacked functions outside the range of par2fun, the specification's fun2par of each, tolerance): a set
+    of Ns FUNCTION samples; .parameters is the documented inverse / projection of every sample, .parameters.funvals its
+    par2fun."""
     from cuqi.samples import Samples
     c = case["c"]
     key = ckey(c)
@@ -646,13 +869,25 @@ def check_sample_sets(ctx, case, G, m, tol, batches):
         rt = max(m.rt_tol(max(tol, 1e-11), m.p2f_inner(P[:, w])) for w in range(W))
         S0 = Samples(P.copy(), geometry=G)
         objs = {"": S0}
-        steps = [("funvals", "", "funvals", EF, bs["fun"], (False, bs["fun_is_vec"]), tol),
-                 ("funvals-parameters", "funvals", "parameters", P, bs["par"], (True, True), rt)]
+        steps = [("funvals", "", "funvals", EF, bs["fun"], (False, bs["fun_is_vec"]), tol)]
+        if m.has_inv:
+            steps += [("funvals-parameters", "funvals", "parameters", P, bs["par"], (True, True), rt)]
         if m.has_vec:
             EV = np.stack([m.f2v(EF[..., w]) for w in range(W)], axis=-1)
             steps += [("funvals-vector", "funvals", "vector", EV, bs["vec"], (False, True), tol),
-                      ("funvals-vector-funvals", "funvals-vector", "funvals", EF, bs["fun"], (False, bs["fun_is_vec"]), tol),
-                      ("funvals-vector-parameters", "funvals-vector", "parameters", P, bs["par"], (True, True), rt)]
+                      ("funvals-vector-funvals", "funvals-vector", "funvals", EF, bs["fun"], (False, bs["fun_is_vec"]), tol)]
+            if m.has_inv:
+                steps += [("funvals-vector-parameters", "funvals-vector", "parameters", P, bs["par"], (True, True), rt)]
+        if cov:
+            cov("samples/par-origin/Ns=%d" % W)
+        if funsets:
+            FW, EPW, ft = funsets[W]
+            EFP = np.stack([m.p2f(EPW[:, w]) for w in range(W)], axis=-1)
+            objs["fun"] = Samples(FW.copy(), geometry=G, is_par=False, is_vec=bs["fun_is_vec"])
+            steps += [("fun/parameters", "fun", "parameters", EPW, bs["par"], (True, True), ft),
+                      ("fun/parameters-funvals", "fun/parameters", "funvals", EFP, bs["fun"], (False, bs["fun_is_vec"]), max(tol, ft))]
+            if cov:
+                cov("samples/fun-origin/Ns=%d" % W)
         for name, src, op, exp, shape, flags, t in steps:
             if src not in objs:
                 continue                     # the conversion this one starts from already disagreed
@@ -680,6 +915,9 @@ def check_sample_sets(ctx, case, G, m, tol, batches):
                 objs[name] = obj
         if not np.array_equal(np.asarray(S0.samples, dtype=float), P):
             ctx.mismatch("conv_source/%s/samples/Ns=%d" % (key, W), case, "conversions altered the sample set they were called on", P, S0.samples)
+        if funsets and not np.array_equal(np.asarray(objs["fun"].samples, dtype=float), funsets[W][0]):
+            ctx.mismatch("conv_source/%s/samples/Ns=%d/fun" % (key, W), case, "conversions altered the sample set they were called on",
+                         funsets[W][0], objs["fun"].samples)
 
 
 def check_mapped_objects(ctx, case, G, m, tol):
@@ -699,6 +937,8 @@ def check_mapped_objects(ctx, case, G, m, tol):
         k1 = P.shape[1] - 2                 # the column the CUQIarray facets use (1 of three)
         steps = [("samples/funvals", lambda P=P: Samples(P.copy(), geometry=G).funvals.samples, EF, tol),
                  ("samples/funvals-parameters", lambda P=P: Samples(P.copy(), geometry=G).funvals.parameters.samples, P, rt)]
+        if not m.has_inv:       # MappedGeometry without imap: the forward conversions only
+            steps, tag = steps[:1], tag or "/Ns=3"
         if not tag:
             steps = [("array/funvals", lambda: np.asarray(CUQIarray(P[:, k1].copy(), geometry=G).funvals), EF[..., k1], tol),
                      ("array/funvals-parameters", lambda: np.asarray(CUQIarray(P[:, k1].copy(), geometry=G).funvals.parameters), P[:, k1], rt),
@@ -706,8 +946,9 @@ def check_mapped_objects(ctx, case, G, m, tol):
         if m.has_vec:
             EV = np.stack([m.f2v(EF[..., w]) for w in range(P.shape[1])], axis=-1)
             steps += [("samples/funvals-vector", lambda P=P: Samples(P.copy(), geometry=G).funvals.vector.samples, EV, tol),
-                      ("samples/funvals-vector-funvals", lambda P=P: Samples(P.copy(), geometry=G).funvals.vector.funvals.samples, EF, tol),
-                      ("samples/funvals-vector-parameters", lambda P=P: Samples(P.copy(), geometry=G).funvals.vector.parameters.samples, P, rt)]
+                      ("samples/funvals-vector-funvals", lambda P=P: Samples(P.copy(), geometry=G).funvals.vector.funvals.samples, EF, tol)]
+            if m.has_inv:
+                steps += [("samples/funvals-vector-parameters", lambda P=P: Samples(P.copy(), geometry=G).funvals.vector.parameters.samples, P, rt)]
         for name, fn, exp, t in steps:
             sig = "%s/%s%s" % (key, name, tag)
             try:
@@ -752,6 +993,7 @@ def replay_conv_group(ctx, mcase, group):
     by_trail = {tuple(g["trail"]): g for g in group}
     root = by_trail[()]
     G = make_geometry(c)
+    _Cov(ctx, c)("conversion_behaviours/%s/origin=%s" % (rkey, origin))
     tol = max(m.tol(), 1e-11) if c["kind"] == "kl" else TOL
     init = conv_value(m, root["val"], root["par"], root["vec"], fun1d)
     if rep == "samples":
@@ -1181,6 +1423,18 @@ def _vacuity(maps, seqs, convs):
     miss = [x for x in needs if x not in kinds]
     if miss:
         raise MachineryError("vacuous: no Use . Set . Use behaviour emitted for %r" % (miss,))
+    # stacked functions: for every projection option of the step expansion there is a configuration in which the largest
+    # and the smallest value of two steps lie in different columns of the matrix (pairwise different columns everywhere)
+    spread = {}
+    for k in maps.values():
+        c = k["c"]
+        if len({repr(col) for col in k.get("fb", ())}) != len(WIDTHS):
+            raise MachineryError("vacuous: the stacked functions of %s are not pairwise different" % ckey(c))
+        if c["kind"] == "step" and not c["maps"]:
+            spread[c["proj"]] = spread.get(c["proj"], 0) + int(_extrema_spread(k))
+    miss = [o for o, cnt in spread.items() if cnt == 0]
+    if miss or "" not in spread or len(spread) < 4:
+        raise MachineryError("vacuous: no step configuration whose extrema lie in different columns for projection option(s) %r" % (miss,))
 
 
 def run(ctx, only=None, only_seq=None):
@@ -1217,6 +1471,7 @@ def run(ctx, only=None, only_seq=None):
         nseq += 1
     if only is None and only_seq is None:
         ctx.observe("seq_behaviours", {"replayed": nseq, "reassignments_applied": nsets})
+        _vacuity_options(ctx)
     ctx.observe("configurations_by_kind", kinds)
     ks = sorted(maps)
     for pick in [k for k in ks if k.startswith("image/Image2D_F/r=2/c=3")][:1] + [k for k in ks if k.startswith("step/") and "n=6/s=5" in k][:1] \
@@ -1244,7 +1499,10 @@ def run(ctx, only=None, only_seq=None):
                         "maps of mapped geometries are numpy float functions (2v+1, v**3 / cbrt, exp / log) applied to the specification's "
                         "pre-image; their exact rational values (affine, cube) are cross-checked against the specification",
                         "only attributes with a public setter are reassigned (grid, Discrete.variables); constructor-only attributes "
-                        "(order, visual_only, num_modes, n_steps, decay_rate, normalizer, map, imap) are not"]
+                        "(order, visual_only, num_modes, n_steps, decay_rate, normalizer, map, imap) are not",
+                        "constructor options: letter case of fun2par_projection is ignored (tests/test_geometry.py uses 'MiN'); "
+                        "KL decay rates are multiples of 1/2 (2.5 = the documented default, argument omitted), normalizers "
+                        "integers; the default normalizer is not asserted (docstring 1.0, signature 12.0: observation)"]
 
 
 def replay(ctx, case):
@@ -1253,4 +1511,4 @@ def replay(ctx, case):
     if case.get("kind") == "seq":
         return run(ctx, only_seq=(ckey(case["c0"]), seq_trail_key(case["c0"], case["trail"])))
     c = case["c"]
-    return run(ctx, only=_maps_like(c))
+    return run(ctx, only=ckey(c) if case.get("kind") == "maps" else _maps_like(c))
